@@ -59,7 +59,7 @@ func c18Gating(r *an.Run, m *runModel) {
 		return
 	}
 	call := calls[0]
-	r.Check(call.Call.Args[0] == valueOfExtract(m.parse, 0), short(f)+"|predicate-arg", call.Pos(), "the predicate inspects the file that was just parsed")
+	r.Check(call.Call.Args[0] == m.parsed, short(f)+"|predicate-arg", call.Pos(), "the predicate inspects the file that was just parsed")
 	flagOff := m.hyp(map[string]bool{"SkipGenerated": false}, nil)
 	r.Check(m.unreachableUnder(call.Block(), flagOff), short(f)+"|only-with-flag", call.Pos(), "the predicate is evaluated only under --skip-generated (without the flag the markers have no effect)")
 	// skip arm: only a log call, then next file
@@ -85,11 +85,11 @@ func c18Gating(r *an.Run, m *runModel) {
 	// order: before Apply and before every output
 	r.Check(call.Block().Dominates(m.apply.Block()) || reachesOnlyAfter(m, call), short(f)+"|before-apply", call.Pos(), "the skip decision is taken before any change is applied")
 	skipping := m.hyp(map[string]bool{"SkipGenerated": true}, map[ssa.Value]bool{ssa.Value(call): true})
-	r.Check(!m.iterationUnder(m.parse, skipping)[m.apply.Block()], short(f)+"|flag-before-apply", call.Pos(), "with the flag set and the predicate true, (*patchRunner).Apply is not reached in that iteration")
+	r.Check(!m.iterationUnder(m.loadSite, skipping)[m.apply.Block()], short(f)+"|flag-before-apply", call.Pos(), "with the flag set and the predicate true, (*patchRunner).Apply is not reached in that iteration")
 	// not-skipped paths reach Apply
 	cont := m.iterationFrom(call, edgesWhen(brs, true))
 	r.Check(cont[m.apply.Block()], short(f)+"|not-generated-continues", call.Pos(), "a file that is not generated is processed exactly as without the flag (reaches Apply)")
-	off := m.iterationUnder(m.parse, flagOff)
+	off := m.iterationUnder(m.loadSite, flagOff)
 	r.Check(off[m.apply.Block()] && !off[call.Block()], short(f)+"|flag-off-continues", call.Pos(), "without the flag the pipeline goes straight to Apply without evaluating the predicate")
 	r.Count("predicate call sites", len(calls))
 }
